@@ -7,16 +7,19 @@
 package secp256k1montgomeryscalar
 
 //@ func Uint64ToUint1
+//@   ct
 //@   props C02 C17
 //@   ensures result == ite(u == 0, 0, 1)
 //@
 //@ func cmovznzU64
+//@   ct
 //@   props C02 C17
 //@   requires arg1 <= 1
 //@   ensures *out1 == ite(arg1 == 0, arg2, arg3)
 //@   modifies out1
 //@
 //@ func Selectznz
+//@   ct
 //@   props C02 C17
 //@   requires arg1 <= 1
 //@   ensures out1[0] == ite(arg1 == 0, old(arg2[0]), old(arg3[0]))
@@ -26,21 +29,25 @@ package secp256k1montgomeryscalar
 //@   modifies out1
 //@
 //@ func Nonzero
+//@   ct
 //@   props C02 C17
 //@   ensures (*out1 == 0) <==> (arg1[0] == 0 && arg1[1] == 0 && arg1[2] == 0 && arg1[3] == 0)
 //@   modifies out1
 //@
 //@ func SetOne
+//@   ct
 //@   props C02
 //@   ensures e4(out1) < N && fmN(e4(out1)) == 1
 //@   modifies out1
 //@
 //@ func Msat
+//@   ct
 //@   props C02
 //@   ensures evalw(out1) == N
 //@   modifies out1
 //@
 //@ func Add
+//@   ct
 //@   props C02
 //@   requires e4(arg1) < N && e4(arg2) < N
 //@   ensures e4(out1) < N
@@ -50,6 +57,7 @@ package secp256k1montgomeryscalar
 //@   modifies out1
 //@
 //@ func Sub
+//@   ct
 //@   props C02
 //@   requires e4(arg1) < N && e4(arg2) < N
 //@   ensures e4(out1) < N
@@ -59,6 +67,7 @@ package secp256k1montgomeryscalar
 //@   modifies out1
 //@
 //@ func Opp
+//@   ct
 //@   props C02
 //@   requires e4(arg1) < N
 //@   ensures e4(out1) < N
@@ -68,6 +77,7 @@ package secp256k1montgomeryscalar
 //@   modifies out1
 //@
 //@ func Mul
+//@   ct
 //@   props C02
 //@   requires e4(arg1) < N && e4(arg2) < N
 //@   using prodbound_N(e4(arg1), e4(arg2))
@@ -82,6 +92,7 @@ package secp256k1montgomeryscalar
 //@   modifies out1
 //@
 //@ func Square
+//@   ct
 //@   props C02
 //@   requires e4(arg1) < N
 //@   using prodbound_N(e4(arg1), e4(arg1))
@@ -96,6 +107,7 @@ package secp256k1montgomeryscalar
 //@   modifies out1
 //@
 //@ func FromMontgomery
+//@   ct
 //@   props C02
 //@   requires e4(arg1) < N
 //@   cut r0: (x20 + x22*W + x24*W2 + x26*W3 + x27*W4)*W == old(arg1[0]) + x2*N
@@ -109,6 +121,7 @@ package secp256k1montgomeryscalar
 //@   modifies out1
 //@
 //@ func ToMontgomery
+//@   ct
 //@   props C02
 //@   requires e4(arg1) < N
 //@   cut r0: (x37 + x39*W + x41*W2 + x43*W3 + x44*W4)*W == old(arg1[0])*R2N + x19*N
